@@ -1,5 +1,6 @@
 """Quantity-layer correspondence: cases for gearpy/units, run on the implementation, written as Coq qcase literals."""
 import math
+import zlib
 import random
 
 import gearpy.units as U
@@ -62,7 +63,11 @@ def rand_num(rng):
 
 def build(lit):
     if lit[0] == 'Q':
-        return getattr(U, lit[1])(lit[2], lit[3])
+        v = lit[2]
+        # one integral value in three is handed over as a Python int (deterministically: a replay builds the same object)
+        if isinstance(v, float) and v != 0 and v.is_integer() and abs(v) < 2 ** 31 and zlib.crc32(repr(lit).encode()) % 3 == 0:
+            v = int(v)
+        return getattr(U, lit[1])(v, lit[3])
     if lit[0] == 'N':
         return lit[1]
     return 'foreign'
